@@ -30,7 +30,10 @@ ASSUMPTIONS = [
     "the final content of `overlap` after the block writes is modelled in final-state form (Model/Overlap.rawEntry); tied by the ovl stream",
     "positive semidefiniteness and the size of what the 1e-15 screening drops are NOT proved (checked numerically by the search)",
     "IEEE double arithmetic of numpy is not modelled; comparisons use model-derived error bounds",
-    "kernel_eq_integral: see Props/C06.lean for what is proved over the reals",
+    "kernel_eq_integral is proved over the reals for the 1-D factor; that the 3-D primitive integral is the product of the three "
+    "1-D factors (Fubini) and that contraction / Cartesian->pure transformation are linear is used, not restated in Lean",
+    "checkTable (interval checker) is tied to real numbers by the soundness lemmas I.mem_add/mem_scale/mem_mulPos/within_sound/"
+    "invSqrt_sound; their composition over the checker's list folds is by construction",
 ]
 TIME_LIMIT = {"quick": 1200, "thorough": 7200}
 
